@@ -301,6 +301,10 @@ class OptiWrapper(Opti):
                 Opti.set_domain(self, v, domain)
             else:
                 if domain!='real': raise Exception("This version of CasADi Opti stack does not support set_domain.")
+            if domain!='real':
+                # A discrete variable keeps its own values: scaling it would make the
+                # physical quantity range over multiples of the scale instead of the integers
+                return v
             return scale*v
 
     def cache_advanced(self):
